@@ -25,7 +25,7 @@ FW_UNITS = [
     "src/user/supla_esp_cfgmode_html.c", "src/user/supla_esp_state.c", "src/user/supla_update.c",
     "src/user/supla_esp_countdown_timer.c", "src/user/supla_esp_dns_client.c",
     "src/user/supla_esp_wifi.c", "src/user/uptime.c", "src/user/supla_esp_rs_fb.c",
-    "supla-common/proto.c", "supla-common/srpc.c", "supla-common/lck.c", "supla-common/log.c",
+    "supla-common/proto.c", "supla-common/srpc.c", "supla-common/lck.c",
 ]
 MQTT_UNITS = ["src/user/supla_esp_mqtt.c", "src/user/mqtt.c", "src/user/supla_esp_cfgmode_mqtt_html.c"]
 
